@@ -153,6 +153,10 @@ class Results:
         self.extra = {}
 
     def ok(self, rule, key, detail=None, where=None, nontrivial=True, **kw):
+        # "the anchor exists" instances are bookkeeping, not evidence of the property: never counted as non-trivial
+        k0 = str(key)
+        if k0.startswith('anchor') or k0.endswith(('-site', ':site')) or k0 in ('site', 'sites', 'anchor'):
+            nontrivial = False
         it = {'rule': rule, 'key': '%s|%s' % (rule, key), 'status': 'ok', 'detail': detail,
               'where': where, 'nontrivial': nontrivial}
         it.update(kw)
